@@ -37,7 +37,7 @@ func H_C18_scan() {
 	}
 	var ws []wr
 	for i := 0; i < nw; i++ {
-		ws = append(ws, wr{key: targets[vChoice("w.target", 1, vBound("targets", 2, 4))], kind: vChoice("w.kind", 0, vBound("kinds", 1, 2)), val: vNondetBytes("w.val", 1)})
+		ws = append(ws, wr{key: targets[vChoice("w.target", 0, vBound("targets", 1, 4))], kind: vChoice("w.kind", 0, vBound("kinds", 1, 2)), val: vNondetBytes("w.val", 1)})
 	}
 	for _, w := range ws {
 		w := w
@@ -70,7 +70,9 @@ func H_C18_scan() {
 	vJoin()
 	vAssert(rerr == nil, "scan-ends-ok")
 	vAssert(okStream, "scan-stream-wellformed")
-	vAssert(sends >= 2, "scan-spans-several-messages")
+	if sends >= 2 {
+		vReach("c18-multi-message")
+	}
 	if !okStream {
 		return
 	}
@@ -86,8 +88,12 @@ func H_C18_scan() {
 				written = true
 			}
 		}
-		if k == "a" {
+		if k == "a" && !written {
 			vAssert(len(r.cells) == 1025, "untouched-big-row-intact")
+			continue
+		}
+		if k == "a" {
+			vAssert(len(r.cells) >= 1025 && len(r.cells) <= 1026, "written-big-row-has-a-real-shape")
 			continue
 		}
 		orig, had := vals[k]
